@@ -380,7 +380,14 @@ func (prop c11) Execute(sc *sim.Scenario) *sim.Outcome {
 	for i := range base.Steps {
 		base.Steps[i].Tag = ""
 	}
+	stride := 1
+	if n := len(base.Steps); n > 12 {
+		stride = (n + 11) / 12 // long histories: about twelve fault positions, spread evenly
+	}
 	for k := range base.Steps {
+		if k%stride != 0 {
+			continue
+		}
 		for _, f := range c11Faults {
 			v := base.Clone()
 			v.Steps[k].Tag = f
